@@ -310,6 +310,57 @@ def explore_case(ctx, case, stats, samples, budget_events=None, excs=("KeyboardI
         samples.append({"case": case, "events": n_events, "model_steps": len(mv.rows), "uninjected": base["trigger"]})
 
 
+def check_linked_child_failure(ctx, stats):
+    """a function with a linkback child, both in use; a registration that is valid for the function itself but conflicts
+    with one of the CHILD's own methods (a name positional in one, keyword-only in the other): the child's rebuild fails
+    and the exception surfaces from the parent's register.  The parent is a valid function: afterwards it must answer
+    as a freshly built function over its definitions does.  (The derivation graph is outside the Build model: property
+    oracle alone.)"""
+    import ovld as _ov
+    for kind in ("copy", "variant"):
+        f = _ov.Ovld(name="f")
+
+        def f_int(x: int):
+            return "int"
+
+        def f_obj(x: object):
+            return "obj"
+
+        def f_float(x: float, flag: object = None):
+            return "float"
+
+        def g_str(x: str, *, flag: object = None):
+            return "g-str"
+        f.register(f_int)
+        f.register(f_obj)
+        if kind == "copy":
+            g = f.copy(linkback=True)
+            g.register(g_str)
+        else:
+            g = f.variant(g_str, linkback=True)
+        before = (f(1), f(1.5), g(1), g("s"))
+        raised = None
+        try:
+            f.register(f_float)
+        except Exception as e:  # noqa
+            raised = type(e).__name__
+        fresh = _ov.Ovld(name="f")
+        for m in (f_int, f_obj, f_float):
+            fresh.register(m)
+        stats["evaluations"] += 1
+        stats["linked_child_failures"] = stats.get("linked_child_failures", 0) + 1
+        for v in (1, 1.5, "s"):
+            try:
+                got = f(v)
+            except Exception as e:  # noqa
+                got = "EXC:" + type(e).__name__
+            exp = fresh(v)
+            if got != exp:
+                ctx.violation(f"after a registration on f failed in its linkback {kind} (raised {raised}), f({v!r}) gives {got!r}; a function built from f's definitions gives {exp!r} (before: {before})",
+                              {"linked_child_failure": kind, "value": repr(v)})
+                return
+
+
 def run(ctx):
     stats = {"evaluations": 0, "traces_validated": 0, "injections": 0, "natural_faults": 0, "hook_faults": 0, "swallowed": 0,
              "corr_fail": 0, "in_domain": 0, "improved_in_known_class": 0, "oracle_ok": 0, "chain_invalid": 0, "events_total": 0, "loose_mappings": 0,
@@ -317,6 +368,7 @@ def run(ctx):
     samples = []
     t0 = time.time()
     rng = ctx.rng
+    check_linked_child_failure(ctx, stats)
     if ctx.quick():
         full = [gen_scenario(rng, "first", nmeth=3), gen_scenario(rng, "rebuild", nmeth=2), gen_scenario(rng, "miss", nmeth=3)]
         n_natural, n_hook, budget = 12, 3, None
